@@ -837,5 +837,126 @@ pub proof fn lemma_control_roundtrip(m: CtlV)
     assert(r is Some);
 }
 
+
+// ---- C10: what the decoder accepts is inside the encodable domain, so one re-encoding reaches the fixed point ----
+pub proof fn lemma_hdr_len_range(s: Seq<u8>)
+    requires s.len() >= 2,
+    ensures 0 <= hdr_len(s) <= 1023,
+{ }
+pub proof fn lemma_list_values_encodable(s: Seq<u8>)
+    requires recs_all_ok(spec_avp_list(s)),
+    ensures
+        forall |i: int| 0 <= i < recs_values(spec_avp_list(s)).len() ==> avp_encodable(#[trigger] recs_values(spec_avp_list(s))[i]), //[C10:spec.avp_list.decoded_is_encodable]
+        spec_enc_avps(recs_values(spec_avp_list(s))).len() <= s.len(), //[C10:spec.avp_list.reencoding_not_longer]
+    decreases s.len(),
+{
+    broadcast use group_spec_seq;
+    let l = spec_avp_list(s);
+    if s.len() < 6 {
+        assert(recs_values(l) =~= Seq::<AvpV>::empty());
+    } else {
+        let len = hdr_len(s);
+        lemma_hdr_len_range(s);
+        if len < 6 || len > s.len() {
+            assert(l[0] is Err);
+            assert(false);
+        } else {
+            let payload = s.skip(6).take(len - 6);
+            let rest_s = s.skip(6).skip(len - 6);
+            let rest = spec_avp_list(rest_s);
+            let this = l[0];
+            assert(l =~= seq![this] + rest);
+            assert(recs_all_ok(rest)) by {
+                assert forall |i: int| 0 <= i < rest.len() implies (#[trigger] rest[i]) is Ok by { assert(l[i + 1] == rest[i]); }
+            }
+            lemma_list_values_encodable(rest_s);
+            assert(this is Ok);
+            let v = this->Ok_0;
+            let kind = be16(s.skip(2).skip(2));
+            assert(0 <= kind < 65536);
+            assert(be16(s.skip(2)) == 0);
+            if hdr_hidden(s) {
+                assert(v == hidden_view(kind, payload));
+                assert(avp_encodable(v));
+                assert(spec_payload_enc(v).len() == payload.len());
+            } else {
+                assert(spec_kind_assigned(kind));
+                assert(spec_payload_dec(kind, payload) == Some(v));
+                lemma_payload_decoded_ok(kind, payload);
+                assert(avp_encodable(v));
+            }
+            let vs = recs_values(l);
+            let rvs = recs_values(rest);
+            assert(vs =~= seq![v] + rvs);
+            assert(vs.skip(1) =~= rvs);
+            lemma_enc_avps_cons(vs);
+            assert(spec_enc_avp(v).len() == 6 + spec_payload_enc(v).len());
+            assert forall |i: int| 0 <= i < vs.len() implies avp_encodable(#[trigger] vs[i]) by {
+                if i > 0 { assert(vs[i] == rvs[i - 1]); }
+            }
+        }
+    }
+}
+pub proof fn lemma_control_decoded_is_encodable(w: int, u: bool, b: Seq<u8>)
+    requires spec_control(w, u, b) is Some,
+    ensures
+        control_encodable(spec_control(w, u, b)->Some_0.0), //[C10:spec.control.decoded_is_encodable]
+{
+    broadcast use group_spec_seq;
+    let l = spec_control_list(w, u, b)->Some_0;
+    let length = be16(b);
+    let body = b.skip(2).skip(2).skip(2).skip(2).skip(2);
+    lemma_list_values_encodable(body.take(length - 12));
+    let m = spec_control(w, u, b)->Some_0.0;
+    assert(m.avps == recs_values(l));
+    assert(body.take(length - 12).len() == length - 12);
+    if l.len() > 0 { assert(rec_is_message_type(l[0])); assert(m.avps[0] == l[0]->Ok_0); }
+    assert forall |i: int| 0 <= i < m.avps.len() implies avp_fits(#[trigger] m.avps[i]) by { assert(avp_encodable(m.avps[i])); }
+}
+// C10 for control messages: the decoded value re-encodes to octets that decode (strictly) to the same value up to
+// Length, and encoding that value again gives the same octets (spec_enc_control does not read m.length)
+pub proof fn lemma_control_fixed_point(w: int, u: bool, b: Seq<u8>)
+    requires spec_control(w, u, b) is Some,
+    ensures ({
+        let m = spec_control(w, u, b)->Some_0.0;
+        let e = spec_enc_control(m, 2);
+        let r = spec_message(e, true, true, true);
+        r is Some && r->Some_0.0 is Control
+        && ctl_eq(r->Some_0.0->Control_0, CtlV { length: e.len() as int, tunnel: m.tunnel, session: m.session, ns: m.ns, nr: m.nr, avps: m.avps })
+        && spec_enc_control(r->Some_0.0->Control_0, 2) == e
+    }), //[C10:spec.control.fixed_point]
+{
+    broadcast use group_spec_seq;
+    lemma_control_decoded_is_encodable(w, u, b);
+    let m = spec_control(w, u, b)->Some_0.0;
+    lemma_control_roundtrip(m);
+    let e = spec_enc_control(m, 2);
+    let r = spec_message(e, true, true, true);
+    let m2 = r->Some_0.0->Control_0;
+    assert(m2.avps =~= m.avps);
+}
+// C10 for data messages without an offset field
+pub proof fn lemma_data_fixed_point(w: int, b: Seq<u8>)
+    requires spec_data(w, b) is Some, !fw_o(w),
+    ensures ({
+        let d = spec_data(w, b)->Some_0.0;
+        let e = spec_enc_data(d, 2);
+        let r = spec_message(e, true, true, true);
+        r is Some && r->Some_0.0 is Data && data_eq(r->Some_0.0->Data_0, d) && spec_enc_data(r->Some_0.0->Data_0, 2) == e
+    }), //[C10:spec.data.fixed_point]
+{
+    broadcast use group_spec_seq;
+    let d = spec_data(w, b)->Some_0.0;
+    let e = spec_enc_data(d, 2);
+    assert(d.offset is None);
+    let need: int = 4 + (if fw_l(w) { 2int } else { 0 }) + (if fw_s(w) { 4int } else { 0 });
+    assert(e.len() == 2 + need + d.data.len());
+    assert(data_encodable(d, e.len() as int));
+    lemma_data_roundtrip(d);
+    assert(d.data.skip(0) =~= d.data);
+    let d2 = spec_message(e, true, true, true)->Some_0.0->Data_0;
+    assert(d2.data =~= d.data);
+}
+
 } // verus!
 } // mod vf_spec
